@@ -45,6 +45,22 @@ async def scenario(loop, plan, r, out):
     V = plan["v"]
     stack = Stack(loop, V, window=plan.get("K", 1), fh=plan.get("fh"), fn=plan.get("fn"), fg=plan.get("fg")).install()
     out["stack"] = stack
+    if plan.get("announce") is not None:
+        # an adapter that reboots when the port is opened announces that reboot (RSTACK with a power-on / external code)
+        # just before it answers the host's RST; no application is attached yet, so it is nobody's business
+        from vlib import refash as _ra
+
+        _out = stack.ash._out
+        soft = _ra.enc_rstack(_ra.RESET_SOFTWARE)
+        left = {"n": 1}
+
+        def out_(raw, cancel=False):
+            if raw == soft and left["n"] > 0:
+                left["n"] -= 1
+                _out(_ra.enc_rstack(plan["announce"]), cancel=True)
+            _out(raw, cancel=cancel)
+
+        stack.ash._out = out_
     try:
         path = "socket://127.0.0.1:9999" if plan["path"] == "socket" else "/dev/ttyUSB0"
         ezsp = e.EZSP(make_config(path))
@@ -217,6 +233,8 @@ def check(plan) -> Result:
             need_second = False
     r.nontrivial = V != 4 or bool(faults)
     r.cls(vtag, "path:" + plan["path"], "second:" + plan["second"], "spont:" + plan.get("spont", "absent"))
+    if plan.get("announce") is not None:
+        r.cls("reboot-announced-before-handshake")
     if faults:
         r.cls("faults")
         for _, k, fk in faults:
@@ -250,6 +268,8 @@ def plans(draw):
         plan["fn"] = draw(st.lists(fate, max_size=30))
     else:
         plan["use"] = draw(st.booleans())
+        if path == "serial" and draw(st.integers(0, 3)) == 0:
+            plan["announce"] = draw(st.sampled_from([0x00, 0x01, 0x02, 0x03, 0x06, 0x09]))
         if plan["second"] == "reset":
             plan["probe"] = draw(st.booleans())
     return plan
@@ -276,6 +296,9 @@ def enum_plans(quick):
                         p["spont"] = sp
                     out.append(p)
                     out.append(dict(p, use=True))
+                    if path == "serial":
+                        out.append(dict(p, announce=0x02))
+                        out.append(dict(p, announce=0x01, use=True))
                     if second == "reset":
                         out.append(dict(p, use=True, probe=True))
                         out.append(dict(p, probe=True))
